@@ -162,6 +162,11 @@ class eap(packet_base):
         (self.code, self.id, self.length) \
             = struct.unpack('!BBH', raw[:self.MIN_LEN])
 
+        if (self.code in (self.REQUEST_CODE, self.RESPONSE_CODE)
+            and dlen < self.MIN_LEN + 1):
+            self.msg('(eap parse) warning EAP request/response without type')
+            return
+
         self.hdr_len = self.length
         self.payload_len = 0
         self.parsed = True
